@@ -530,9 +530,14 @@ int main(int argc, char ** argv)
    if (!HostIsLittleEndian()) { res.infra_errors.push_back("host is not little-endian"); return res.Write(args); }
    Gen G(args.Thorough() || !args.replay.empty()); const size_t N = G.Count();
    auto desc = [&](size_t i) -> std::string { rc::AbsMsg m; std::string d; return G.Make(i, m, &d) ? d : std::string("{\"not_in_set\": true}"); };
-   size_t distinct = 0, pyRun = 0, pyNative = 0, pySkipped = 0;
-   { rc::AbsMsg m; for (size_t i = 0; i < N; i++) if (G.Make(i, m)) { distinct++; std::string f = PyFlags(m); if (f == "x") pySkipped++; else { pyRun++; if (f.find('n') != std::string::npos) pyNative++; } } }
-   const std::string setText = verif::Fmt("every Message of the generated set: primary field of each of %u kinds (bool, int8/16/32/64, 3 float and 3 double value sets incl. +-0, signalling/quiet NaN with payload, +-inf, denormal, max; UTF-8 string incl. empty and 2/3/4-byte sequences; non-UTF-8 string; point and rect with and without NaN; B_RAW_TYPE incl. a buffer holding the protocol magic and zero-length buffers (also as last item); raw with a private type code; nested Message (empty / with fields / with sub-sub-Messages)) x %s items (field name 'f' / EMPTY / non-ASCII UTF-8 / 'four') x (no second field | a second field of each kind with %s items) x wrapped 0..3 times into parent Messages (the second level holding it twice, sibling int16 field before or after), nesting capped at 3: %u distinct Messages (index space of %u; an index outside the tier's sub-space or beyond the nesting cap is not a case).", (unsigned)G.NK(), args.Thorough() ? "1..4" : "1..3", args.Thorough() ? "1..3" : "2", (unsigned)distinct, (unsigned)N);
+   size_t inSet = 0, distinct = 0, pyRun = 0, pyNative = 0, pySkipped = 0;
+   { rc::AbsMsg m; std::set<verif::Hash128> uniq; for (size_t i = 0; i < N; i++) if (G.Make(i, m)) { inSet++; uniq.insert(verif::HashStr(rc::Dump(m))); distinct = uniq.size(); std::string f = PyFlags(m); if (f == "x") pySkipped++; else { pyRun++; if (f.find('n') != std::string::npos) pyNative++; } } }
+   const std::string setText = verif::Fmt("every Message of the generated set: primary field of each of %u kinds (bool, int8/16/32/64, 3 float and 3 double value sets incl. +-0, signalling/quiet NaN with payload, +-inf, denormal, max; UTF-8 string incl. empty and 2/3/4-byte sequences; non-UTF-8 string; point and rect with and without NaN; B_RAW_TYPE incl. a buffer holding the protocol magic and zero-length buffers (also as last item); raw with a private type code; nested Message (empty / with fields / with sub-sub-Messages)) x %s items (field name 'f' / EMPTY / non-ASCII UTF-8 / 'four') x (no second field | a second field of each kind with %s items) x wrapped 0..3 times into parent Messages (the second level holding it twice, sibling int16 field before or after), nesting capped at 3: %u cases, %u distinct Messages (index space of %u; an index outside the tier's sub-space or beyond the nesting cap is not a case; some kinds share values, so a few cases coincide).", (unsigned)G.NK(), args.Thorough() ? "1..4" : "1..3", args.Thorough() ? "1..3" : "2", (unsigned)inSet, (unsigned)distinct, (unsigned)N);
+   // MUTX counts every index it visits; report the cases that are really Messages of the set
+   auto fixCounts = [&](verif::Part & p, size_t ran) {
+      // engine quirk (engines/mutx/mutx.h): a stride whose LAST case died keeps nextStart < n, and the run is then flagged "deadline: n of n cases run"
+      // although every case was executed; all n executed => complete
+      if (!p.exhaustive && p.cap == verif::Fmt("deadline: %llu of %llu cases run", (unsigned long long)N, (unsigned long long)N)) { p.exhaustive = true; p.cap.clear(); } p.transitions = p.evaluations = ran; if (ran < N && p.distinct_outcomes > 0) p.distinct_outcomes--; p.states = p.distinct_outcomes; p.extra["index_space"] = verif::Fmt("%llu", (unsigned long long)N); };
 
    if (!args.replay.empty()) {
       verif::ReplayDoc d; if (!d.Load(args.replay)) { fprintf(stderr, "cannot read %s\n", args.replay.c_str()); return 3; }
@@ -548,15 +553,15 @@ int main(int argc, char ** argv)
       mutx::Runner R(args, res, "codecs"); R.SetCpuLimit(20); R.SetDeadline(args.t0 + budget * 0.4);
       verif::Part & p = R.Run(N, [&](size_t i, mutx::Case & c) { CheckCodecs(G, i, c); }, desc);
       p.rule = setText + " Per Message M (4 programs + reference): bytes = C++ Flatten(M); bytes == ref/refcodec.h's encoding of the abstract content (documented layout, independent of muscle); C++ parses them back to the same content; MMUnflattenMessage(bytes) -> field walk == content, MMGetFlattenedSize/MMFlattenMessage == bytes; UMInitializeWithExistingData(bytes) -> field walk through UMFind* == content (every index 0..count, one past the end must fail); the same content built natively with MMPut*Field and with UMAdd* serialises to the same bytes and Message::Unflatten accepts them with equal content.";
-      p.extra["programs"] = "4"; p.extra["programs_compared"] = "[\"C++ Message\", \"ref/refcodec.h (documented layout)\", \"C MiniMessage\", \"C MicroMessage\"]";
-      p.extra["disagreements_checked"] = verif::Fmt("%llu", (unsigned long long)distinct * 9); p.extra["distinct_messages"] = verif::Fmt("%llu", (unsigned long long)distinct);
+      fixCounts(p, inSet); p.extra["programs"] = "4"; p.extra["programs_compared"] = "[\"C++ Message\", \"ref/refcodec.h (documented layout)\", \"C MiniMessage\", \"C MicroMessage\"]";
+      p.extra["disagreements_checked"] = verif::Fmt("%llu", (unsigned long long)inSet * 9); p.extra["distinct_messages"] = verif::Fmt("%llu", (unsigned long long)distinct);
       fprintf(stderr, "C08 codecs: cases=%llu outcomes=%llu wall=%.1fs\n", (unsigned long long)p.transitions, (unsigned long long)p.distinct_outcomes, p.wall_s);
    }
    if (args.WantPart("stream-frame")) {
       mutx::Runner R(args, res, "stream-frame"); R.SetCpuLimit(20); R.SetDeadline(args.t0 + budget * 0.55);
       verif::Part & p = R.Run(N, [&](size_t i, mutx::Case & c) { CheckFrames(G, i, c); }, desc);
       p.rule = setText + " Per Message: the bytes a real MessageIOGateway (default encoding) writes into an in-memory ByteBufferDataIO == refcodec frame (u32 body length, u32 'Enc0') + body; that stream, two Messages back to back fed in 5-byte pieces, is consumed by MGDoInput (mini) and UGDoInput (micro) which deliver both Messages with the same content; UGGetOutgoingMessage+UMAdd*+UGOutgoingMessagePrepared/UGDoOutput (7-byte pieces) produce the identical stream, which a MessageIOGateway reading from a ByteBufferDataIO turns back into two equal Messages.";
-      p.extra["programs"] = "3"; p.extra["programs_compared"] = "[\"C++ MessageIOGateway\", \"C MiniMessageGateway (input side)\", \"C MicroMessageGateway\"]"; p.extra["disagreements_checked"] = verif::Fmt("%llu", (unsigned long long)distinct * 5);
+      fixCounts(p, inSet); p.extra["programs"] = "3"; p.extra["programs_compared"] = "[\"C++ MessageIOGateway\", \"C MiniMessageGateway (input side)\", \"C MicroMessageGateway\"]"; p.extra["disagreements_checked"] = verif::Fmt("%llu", (unsigned long long)inSet * 5);
       fprintf(stderr, "C08 stream-frame: cases=%llu outcomes=%llu wall=%.1fs\n", (unsigned long long)p.transitions, (unsigned long long)p.distinct_outcomes, p.wall_s);
    }
    if (args.WantPart("mini-gateway-out")) {
@@ -567,7 +572,7 @@ int main(int argc, char ** argv)
       mutx::Runner R(args, res, "mini-gateway-out"); R.SetCpuLimit(20); R.SetDeadline(args.t0 + budget * 0.7);
       verif::Part & p = R.Run(N, [&](size_t i, mutx::Case & c) { if (!G.MiniOutSelected(i)) { c.Outcome("not-in-set"); return; } CheckMiniGatewayOut(G, i, c); }, desc);
       p.rule = setText + verif::Fmt(" Per Message (%s: %u Messages): the content built natively with MMPut*Field is queued twice with MGAddOutgoingMessage and drained by MGDoOutput in 7-byte pieces; the stream must equal refcodec frame + body twice, and a C++ MessageIOGateway reading it from a ByteBufferDataIO must deliver two Messages with the same content.", all ? "thorough tier: the Messages without a second field or with a second field of the primary's kind" : "quick tier: the Messages without a second field", (unsigned)ran);
-      p.extra["programs"] = "2"; p.extra["programs_compared"] = "[\"C MiniMessageGateway (output side)\", \"C++ MessageIOGateway\"]"; p.extra["disagreements_checked"] = verif::Fmt("%llu", (unsigned long long)ran * 2); p.extra["messages_run"] = verif::Fmt("%llu", (unsigned long long)ran);
+      fixCounts(p, ran); p.extra["programs"] = "2"; p.extra["programs_compared"] = "[\"C MiniMessageGateway (output side)\", \"C++ MessageIOGateway\"]"; p.extra["disagreements_checked"] = verif::Fmt("%llu", (unsigned long long)ran * 2); p.extra["messages_run"] = verif::Fmt("%llu", (unsigned long long)ran);
       fprintf(stderr, "C08 mini-gateway-out: cases=%llu outcomes=%llu wall=%.1fs\n", (unsigned long long)p.transitions, (unsigned long long)p.distinct_outcomes, p.wall_s);
    }
    if (args.WantPart("python")) {
@@ -577,7 +582,7 @@ int main(int argc, char ** argv)
       verif::Part & p = R.Run(N, [&](size_t i, mutx::Case & c) { CheckPython(G, P, i, c); }, desc);
       p.wall_s = verif::NowS() - t0;
       p.rule = setText + verif::Fmt(" One python3 process (harness/C08_pycodec.py) imports lang/python3/message.py and handles the whole batch: SetFromFlattenedBuffer(C++ bytes) -> canonical dump of the objects it built == content, GetFlattenedBuffer() == C++ bytes, FlattenedSize() == length; the same content built natively with Put* serialises to the same bytes and Message::Unflatten accepts them with equal content; every natively built Message is also sent through a real MessageTransceiverThread over a loopback TCP connection inside the helper (its 8 frame bytes == refcodec frame, body == C++ bytes) and the C++ MessageIOGateway's frame+body is written to that connection and must be delivered as a Message with the same content. Exclusions (Python only, stated): %u Messages with a field name or string that is not UTF-8 are not given to Python at all (message.py decodes text as UTF-8); parse/re-serialise comparison is skipped for Messages with a NaN inside a point or rect (message.py unpacks those into Python floats and struct.pack('<f') may quieten a signalling NaN); native build and transceiver run for the %u NaN-free Messages only (Python floats are doubles). Float and double ARRAYS with NaN are compared (message.py keeps them as raw array bytes).", (unsigned)pySkipped, (unsigned)pyNative);
-      p.extra["programs"] = "2"; p.extra["programs_compared"] = "[\"C++ Message / MessageIOGateway\", \"Python message.py / message_transceiver_thread.py\"]";
+      fixCounts(p, inSet); p.extra["programs"] = "2"; p.extra["programs_compared"] = "[\"C++ Message / MessageIOGateway\", \"Python message.py / message_transceiver_thread.py\"]";
       p.extra["disagreements_checked"] = verif::Fmt("%llu", (unsigned long long)(pyRun * 3 + pyNative * 5)); p.extra["python_parse_cases"] = verif::Fmt("%llu", (unsigned long long)pyRun); p.extra["python_native_and_transceiver_cases"] = verif::Fmt("%llu", (unsigned long long)pyNative); p.extra["python_skipped_non_utf8"] = verif::Fmt("%llu", (unsigned long long)pySkipped);
       fprintf(stderr, "C08 python: cases=%llu outcomes=%llu wall=%.1fs\n", (unsigned long long)p.transitions, (unsigned long long)p.distinct_outcomes, p.wall_s);
    }
